@@ -472,7 +472,15 @@ func init() {
 					if len(bs) > 1500 {
 						bs = bs[:1500] + "…"
 					}
-					r.Case = map[string]interface{}{"mode": cs.Mode, "depth": cs.Depth, "batch": cs.Batch, "sequences": [][]apiStep{seq}, "canary": cs.Canary, "body_of_failing_request": bs}
+					// the whole history of this server: what it answers may depend on the earlier sequences
+					r.Case = map[string]interface{}{"mode": cs.Mode, "depth": cs.Depth, "batch": cs.Batch, "sequences": cs.Sequences[:si+1], "canary": cs.Canary, "body_of_failing_request": bs}
+					if a.Err != "" && a.Status == 0 {
+						// no response at all within the client's 90 s: every later request would wait as long; report and stop
+						r.Detail = "NO RESPONSE within 90 s (a (2,2) proof takes under a second): " + r.Detail
+						r.Observed = obs
+						emit(r)
+						return
+					}
 				}
 			}
 			// the server answers subsequent requests normally
@@ -481,7 +489,12 @@ func init() {
 			if !allowed("ok", a) && r.OK {
 				r.OK = false
 				r.Detail = fmt.Sprintf("after the sequence the server no longer answers a valid request with 200: %d %s err=%q %s", a.Status, a.Code, a.Err, a.Detail)
-				r.Case = map[string]interface{}{"mode": cs.Mode, "depth": cs.Depth, "batch": cs.Batch, "sequences": [][]apiStep{seq}, "canary": cs.Canary}
+				r.Case = map[string]interface{}{"mode": cs.Mode, "depth": cs.Depth, "batch": cs.Batch, "sequences": cs.Sequences[:si+1], "canary": cs.Canary}
+				if a.Err != "" && a.Status == 0 {
+					r.Observed = obs
+					emit(r)
+					return
+				}
 			}
 			r.Observed = obs
 			emit(r)
